@@ -346,6 +346,55 @@ def limits(ctx):
     return out
 
 
+_WCACHE = {}
+
+
+def _limited_world(spec, mx):
+    key = (spec.get("name"), mx)
+    if key not in _WCACHE:
+        if len(_WCACHE) > 400:
+            _WCACHE.clear()
+        _WCACHE[key] = World(dict(spec, max_seq=mx))
+    return _WCACHE[key]
+
+
+def device_max_boundary(ctx):
+    """For every accepted transition that lengthens the sequence to E (on a device without a maximum): the same call
+    on the same history must be accepted when max_sequence_duration == E and refused when it is E - 1."""
+    if ctx.exc is not None or ctx.world.spec.get("max_seq") is not None or not ctx.post.channels:
+        return []
+    e0 = max([c.end for c in ctx.pre.channels.values()] + [0])
+    e1 = max(c.end for c in ctx.post.channels.values())
+    if e1 <= e0:
+        return []
+    out = []
+    ctx.act["device_max_boundaries"] += 1
+    for mx, want in ((e1, True), (e1 - 1, False)):
+        w = _limited_world(ctx.world.spec, mx)
+        seq = w.fresh()
+        try:
+            with warnings.catch_warnings():
+                warnings.simplefilter("ignore")
+                for h in ctx.history:
+                    apply(seq, h, w)
+        except Exception:
+            continue  # the history itself does not fit (cannot happen for mx >= e0)
+        try:
+            with warnings.catch_warnings():
+                warnings.simplefilter("ignore")
+                apply(seq, ctx.op, w)
+            ok = True
+        except Exception:
+            ok = False
+        end = max([cs.slots[-1].tf for cs in seq._schedule.values() if cs.slots] + [0])
+        if ok and end > mx:
+            out.append((f"C01:sequence-longer-than-device-maximum:{ctx.op[0]}", f"maximum {mx}: call accepted, sequence lasts {end}"))
+        elif ok != want:
+            out.append((f"C01:device-maximum-boundary:{'refused-at-limit' if want else 'accepted-over-limit'}:{ctx.op[0]}",
+                        f"the call brings the sequence to {e1} ns; with max_sequence_duration={mx} it was {'accepted' if ok else 'refused'}"))
+    return out
+
+
 MONITORS = [limits]
 LIM = dict(max_amp=1.5, max_det=20.0, max_dur=104, bottom_det=-10.0, total_bottom_det=-15.0, max_seq=160)
 
@@ -360,6 +409,19 @@ def run(tier, seed):
         (corner("awk", prefix=A.GL, name="awk-limits", **LIM), A.timing(), 3 if tier == "quick" else 4),
     ]
     cov = seqx.run_plan(res, plan, MONITORS)
+    nolim = {k: v for k, v in LIM.items() if k != "max_seq"}
+    plan2 = [
+        (corner("real", prefix=A.GLD, name="real-nomax", **nolim), A.timing(dmm=True, faults=False), 2 if tier == "quick" else 3),
+        (corner("awk", prefix=A.GL, name="awk-nomax", **nolim), A.timing(faults=False), 3 if tier == "quick" else 4),
+    ]
+    res2 = Result("exploration")
+    cov2 = seqx.run_plan(res2, plan2, [device_max_boundary])
+    res.violations += res2.violations
+    for k, v in res2.activations.items():
+        res.activations[k] = res.activations.get(k, 0) + v
+    cov["boundary_transitions"] = cov2["transitions"]
+    cov["transitions"] += cov2["transitions"]
+    cov["states"] += cov2["states"]
     cases = grid_cases(tier)
     outs = gridx.run(grid_case, cases)
     classes = {}
@@ -381,7 +443,7 @@ def run(tier, seed):
                    "case is within one grid step of a limit by construction (non-trivial unless the pulse cannot even be built); "
                    "monitor: every pulse slot of every explored state")
     res.coverage = cov
-    res.required_activations = ["slots_checked", "sequence_near_max_duration"]
+    res.required_activations = ["slots_checked", "sequence_near_max_duration", "device_max_boundaries"]
     res.assumptions = ["values within 1e-6 of a detuning limit are a don't-care band (documented 6-decimal rounding)",
                        "a non-clock-multiple duration on a custom / composite waveform may be refused",
                        "waveform samples are those the waveform classes produce (decided by C16)"]
@@ -389,6 +451,8 @@ def run(tier, seed):
 
 
 def replay(payload):
+    if payload.get("world", {}).get("name", "").endswith("-nomax"):
+        return seqx.replay(payload, [device_max_boundary])
     if payload.get("engine") == "grid":
         case = payload["case"]
         case = tuple(tuple(x) if isinstance(x, list) and i in (2, 3) else x for i, x in enumerate(case))
